@@ -95,11 +95,14 @@ func startOf(ends []int, i int) int {
 }
 
 type CaseCut struct {
-	Type  string  `json:"type"`
-	V     *Value  `json:"v"`
-	Cuts  []int   `json:"cuts,omitempty"`  // empty: every cut position 0..len-1
-	Prior *Value  `json:"prior,omitempty"` // if set: the receiver has decoded this other message before it is given the prefix
-	Pre   []PreOp `json:"pre,omitempty"`   // prior calls / process-wide settings
+	Type     string  `json:"type"`
+	V        *Value  `json:"v"`
+	Cuts     []int   `json:"cuts,omitempty"`      // empty: every cut position 0..len-1
+	Prior    *Value  `json:"prior,omitempty"`     // if set: the receiver has decoded this other message before it is given the prefix
+	Pre      []PreOp `json:"pre,omitempty"`       // prior calls / process-wide settings
+	PriorCut int     `json:"prior_cut,omitempty"` // if > 0: the receiver was offered only the first PriorCut mod len bytes of Prior's encoding (an abandoned partial message)
+	Shape    string  `json:"shape,omitempty"`     // how the prefix sits in memory: "" exactly sized; "subslice": a slice of a larger receive array whose capacity still covers the rest of the message; "stale": a buffer that held the whole message before, was reset and now holds the prefix
+	Sweep    bool    `json:"sweep,omitempty"`     // one receiver object is offered all the prefixes in turn (a receive loop retrying as more data arrives) instead of a fresh one per prefix
 }
 
 func oracleC11(c *CaseCut) *Failure {
@@ -119,14 +122,41 @@ func oracleC11(c *CaseCut) *Failure {
 	if c.Prior != nil {
 		priorEnc = Render(c.Prior, nil).Bytes
 	}
+	newReceiver := func() any {
+		obj := regByName[c.Type].New()
+		if priorEnc != nil {
+			pe := priorEnc
+			if c.PriorCut > 0 && len(pe) > 0 {
+				pe = pe[:c.PriorCut%len(pe)]
+			}
+			_, _, _ = safely(func() error { return DecodeAny(obj, bytes.NewBuffer(append([]byte{}, pe...))) })
+		}
+		return obj
+	}
+	var swept any
+	if c.Sweep {
+		swept = newReceiver()
+	}
 	for _, k := range cuts {
 		if k < 0 || k >= len(enc) {
 			continue
 		}
-		buf := bytes.NewBuffer(enc[:k:k])
-		fresh := regByName[c.Type].New()
-		if priorEnc != nil {
-			_, _, _ = safely(func() error { return DecodeAny(fresh, bytes.NewBuffer(append([]byte{}, priorEnc...))) })
+		var buf *bytes.Buffer
+		switch c.Shape {
+		case "subslice":
+			whole := append([]byte{}, enc...)
+			buf = bytes.NewBuffer(whole[:k])
+		case "stale":
+			buf = &bytes.Buffer{}
+			buf.Write(enc)
+			buf.Reset()
+			buf.Write(enc[:k])
+		default:
+			buf = bytes.NewBuffer(enc[:k:k])
+		}
+		fresh := swept
+		if !c.Sweep {
+			fresh = newReceiver()
 		}
 		err, pan, _ := safely(func() error { return DecodeAny(fresh, buf) })
 		if pan != nil {
@@ -136,6 +166,12 @@ func oracleC11(c *CaseCut) *Failure {
 			used := ""
 			if c.Prior != nil {
 				used = " into a receiver that had decoded another message before"
+			}
+			if c.Sweep {
+				used += " (one receiver offered the growing prefixes in turn)"
+			}
+			if c.Shape != "" {
+				used += " [buffer shape: " + c.Shape + "]"
 			}
 			return failf("C11/"+c.Type+"/accepted-prefix", "Decode reported success on the first %d of %d bytes of a valid encoding%s (%s)", k, len(enc), used, spanAt(c.V, k))
 		}
@@ -345,10 +381,22 @@ func rpC11(types []string) (out []RProp) {
 			if len(c.Pre) > 0 {
 				Col.Class("values-after-prior-calls", 1)
 			}
-			if hasVariableParts(tn) && rapid.IntRange(0, 2).Draw(rt, "used") == 0 {
+			if rapid.IntRange(0, 2).Draw(rt, "used") == 0 {
 				po := GenOpts{Mode: Canonical, MaxList: 40}
 				c.Prior, _ = GenValue(rt, tn, po)
 				Col.Class("values-decoded-into-a-used-receiver", 1)
+				if rapid.Bool().Draw(rt, "priorpartial") {
+					c.PriorCut = rapid.IntRange(1, 1<<20).Draw(rt, "priorcut")
+					Col.Class("values-decoded-into-a-receiver-that-abandoned-a-partial-message", 1)
+				}
+			}
+			c.Shape = rapid.SampledFrom([]string{"", "", "subslice", "stale"}).Draw(rt, "shape")
+			if c.Shape != "" {
+				Col.Class("prefix-in-a-buffer-with-capacity-behind-it:"+c.Shape, 1)
+			}
+			if rapid.IntRange(0, 3).Draw(rt, "sweep") == 0 {
+				c.Sweep = true
+				Col.Class("one-receiver-offered-all-prefixes-in-turn", 1)
 			}
 			r := Render(v, &RenderOpts{Spans: true})
 			n := len(r.Bytes)
